@@ -50,7 +50,7 @@ func (c *Ctx) listLoop(o *obs, f *ssa.Function) *loopInfo {
 	fn := fname(f)
 	li := &loopInfo{a: a, body: map[*ssa.BasicBlock]bool{}}
 	var rs []ssa.CallInstruction
-	for _, ci := range a.invokes("render") {
+	for _, ci := range a.invokes(a.c.renderName()) {
 		if isCodeType(c, ci.Common().Value.Type()) {
 			rs = append(rs, ci)
 		}
@@ -61,7 +61,7 @@ func (c *Ctx) listLoop(o *obs, f *ssa.Function) *loopInfo {
 	}
 	li.R = rs[0]
 	li.item = li.R.Common().Value
-	for _, ci := range a.invokes("isNull") {
+	for _, ci := range a.invokes(a.c.nullName()) {
 		if ci.Common().Value == li.item {
 			li.N = ci
 		}
@@ -280,7 +280,7 @@ func (c *Ctx) sepObligations(o *obs, f *ssa.Function, li *loopInfo, name string,
 
 func ruleStmtRender(c *Ctx) []Obligation {
 	o := c.newObs("P-STMTRENDER")
-	f := c.method("Statement", "render")
+	f := c.method("Statement", c.renderName())
 	if f == nil {
 		o.undecided("(*jen.Statement).render", "anchor", token.NoPos, "anchor lost")
 		return o.list
@@ -315,7 +315,7 @@ func ruleRenderItems(c *Ctx) []Obligation {
 		if g.Signature.Recv() == nil || types.TypeString(g.Signature.Recv().Type(), shortQual) != "*jen.Group" {
 			continue
 		}
-		if g.Signature.Results().Len() == 2 && len(c.FA(g).invokes("render")) > 0 && c.writerParam(g) != nil {
+		if g.Signature.Results().Len() == 2 && len(c.FA(g).invokes(c.renderName())) > 0 && c.writerParam(g) != nil {
 			f = g
 		}
 	}
@@ -432,7 +432,7 @@ func allWays(ws []Facts, pred func(Facts) bool) (bool, Facts) {
 
 func ruleGroupRender(c *Ctx) []Obligation {
 	o := c.newObs("P-GROUPRENDER")
-	f := c.method("Group", "render")
+	f := c.method("Group", c.renderName())
 	if f == nil {
 		o.undecided("(*jen.Group).render", "anchor", token.NoPos, "anchor lost")
 		return o.list
@@ -447,7 +447,7 @@ func ruleGroupRender(c *Ctx) []Obligation {
 		if sc == nil || ci.Common().IsInvoke() {
 			continue
 		}
-		if sc.Signature.Recv() != nil && sc.Signature.Results().Len() == 2 && len(c.FA(sc).invokes("render")) > 0 {
+		if sc.Signature.Recv() != nil && sc.Signature.Results().Len() == 2 && len(c.FA(sc).invokes(c.renderName())) > 0 {
 			if call, ok := ci.(*ssa.Call); ok {
 				if items != nil {
 					o.undecided(fn, "items call", ci.Pos(), "more than one call of the list renderer")
@@ -528,7 +528,7 @@ func ruleGroupRender(c *Ctx) []Obligation {
 	// brace-less form: open / close values
 	prevDesc := ""
 	for _, ci := range a.calls() {
-		if sc := ci.Common().StaticCallee(); sc != nil && sc.Name() == "previous" {
+		if sc := ci.Common().StaticCallee(); sc != nil && sc == c.role("previous") {
 			prevDesc = a.Desc(callValue(ci))
 		}
 	}
@@ -596,7 +596,7 @@ func ruleGroupRender(c *Ctx) []Obligation {
 	typesAtom := `eq("types",recv.name)`
 	var nullItemsAtom string
 	for _, ci := range a.calls() {
-		if sc := ci.Common().StaticCallee(); sc != nil && len(c.FA(sc).invokes("isNull")) > 0 && sc.Signature.Results().Len() == 1 && sc != items.Call.StaticCallee() {
+		if sc := ci.Common().StaticCallee(); sc != nil && len(c.FA(sc).invokes(c.nullName())) > 0 && sc.Signature.Results().Len() == 1 && sc != items.Call.StaticCallee() {
 			if b, ok := sc.Signature.Results().At(0).Type().Underlying().(*types.Basic); ok && b.Kind() == types.Bool {
 				nullItemsAtom = a.Desc(callValue(ci))
 			}
@@ -696,7 +696,7 @@ func sinkName(a *FnA, s *Sink) string {
 func ruleIsNull(c *Ctx) []Obligation {
 	o := c.newObs("P-ISNULL")
 	// Group.isNull
-	if f := c.method("Group", "isNull"); f != nil {
+	if f := c.method("Group", c.nullName()); f != nil {
 		a := c.FA(f)
 		fn := fname(f)
 		for _, r := range a.returns() {
@@ -716,7 +716,7 @@ func ruleIsNull(c *Ctx) []Obligation {
 			}
 			// delegated to the items test
 			call, isCall := v.(*ssa.Call)
-			okc := isCall && call.Call.StaticCallee() != nil && len(c.FA(call.Call.StaticCallee()).invokes("isNull")) > 0 && call.Call.Args[0] == f.Params[0] && call.Call.Args[1] == f.Params[1]
+			okc := isCall && call.Call.StaticCallee() != nil && len(c.FA(call.Call.StaticCallee()).invokes(c.nullName())) > 0 && call.Call.Args[0] == f.Params[0] && call.Call.Args[1] == f.Params[1]
 			ok2, bad := allWays(ws, func(w Facts) bool {
 				return w.Has("eq(nil,recv)", false) && w.Has("empty(recv.open)", true) && w.Has("empty(recv.close)", true)
 			})
@@ -726,7 +726,16 @@ func ruleIsNull(c *Ctx) []Obligation {
 		o.undecided("(*jen.Group).isNull", "anchor", token.NoPos, "anchor lost")
 	}
 	// conjunction loops: Group.isNullItems, Statement.isNull
-	for _, tn := range [][2]string{{"Group", "isNullItems"}, {"Statement", "isNull"}} {
+	// the items test of Group: the bool helper Group's null test delegates to
+	itemsTest := "isNullItems"
+	if gf := c.method("Group", c.nullName()); gf != nil {
+		for _, cal := range c.staticCallees(gf) {
+			if len(c.FA(cal).invokes(c.nullName())) > 0 {
+				itemsTest = cal.Name()
+			}
+		}
+	}
+	for _, tn := range [][2]string{{"Group", itemsTest}, {"Statement", c.nullName()}} {
 		f := c.method(tn[0], tn[1])
 		if f == nil {
 			o.undecided("(*jen."+tn[0]+")."+tn[1], "anchor", token.NoPos, "anchor lost")
@@ -734,7 +743,7 @@ func ruleIsNull(c *Ctx) []Obligation {
 		}
 		a := c.FA(f)
 		fn := fname(f)
-		inv := a.invokes("isNull")
+		inv := a.invokes(a.c.nullName())
 		if len(inv) != 1 {
 			o.undecided(fn, "item null test", f.Pos(), "expected one invoke of isNull, found %d", len(inv))
 			continue
@@ -784,7 +793,7 @@ func ruleIsNull(c *Ctx) []Obligation {
 	}
 	// token.isNull
 	var tf *ssa.Function
-	for _, f := range c.codeImpls("isNull") {
+	for _, f := range c.codeImpls(c.nullName()) {
 		if f.Synthetic == "" && f.Signature.Recv() != nil && types.TypeString(f.Signature.Recv().Type(), shortQual) == "jen.token" {
 			tf = f
 		}
@@ -796,7 +805,7 @@ func ruleIsNull(c *Ctx) []Obligation {
 		fn := fname(tf)
 		pkgAtom := `eq("` + c.tokenTypeConst("packageToken") + `",recv.typ)`
 		nullAtom := `eq("` + c.tokenTypeConst("nullToken") + `",recv.typ)`
-		dot, loc := c.method("File", "isDotImport"), c.method("File", "isLocal")
+		dot, loc := c.role("isDotImport"), c.role("isLocal")
 		for _, r := range a.returns() {
 			v := r.Results[0]
 			ws := a.WaysTo(r.Block())
@@ -828,7 +837,7 @@ func ruleIsNull(c *Ctx) []Obligation {
 		}
 	}
 	// tag / comment / Dict
-	for _, f := range c.codeImpls("isNull") {
+	for _, f := range c.codeImpls(c.nullName()) {
 		if f.Synthetic != "" || f.Signature.Recv() == nil {
 			continue
 		}
